@@ -286,12 +286,12 @@ theorem linv_startPull {s : Srv} (hl : LInv s) (st : Stream) (r : Bool) (retry :
     refine hl.spawnOnly (by simpa using hf) ?_
     unfold Grp.startPull; exact pullIfNeeded_spawn _ nid
 
-theorem linv_stopPull {s : Srv} (hl : LInv s) (st : Stream) : LInv (stopPull s st).1 := by
+theorem linv_stopPull {s : Srv} (hl : LInv s) (st : Stream) : LInv (stopPull Code.fixed s st).1 := by
   unfold stopPull; split
   · exact hl
   · exact hl.keep rfl (fun x => Or.inl rfl)
 
-theorem linv_kick {s : Srv} (hl : LInv s) (st : Stream) (x : Sid) : LInv (kick s st x).1 := by
+theorem linv_kick {s : Srv} (hl : LInv s) (st : Stream) (x : Sid) : LInv (kick Code.fixed s st x).1 := by
   unfold kick; split
   · exact hl
   · exact hl.keep rfl (fun x => Or.inl rfl)
@@ -384,7 +384,7 @@ theorem linv_pullAttach {s : Srv} (hl : LInv s) (a : Sid) : LInv (pullAttach Cod
         dsimp only
         cases hr : p.rtsp
         · simp only [Bool.false_eq_true, if_false]
-          by_cases hacc : (g.addRtmpPull a).2.1 = true
+          by_cases hacc : (g.addRtmpPull Code.fixed a).2.1 = true
           · rw [if_pos hacc]
             refine accepted _ _ ?_
             intro s0
@@ -394,7 +394,7 @@ theorem linv_pullAttach {s : Srv} (hl : LInv s) (a : Sid) : LInv (pullAttach Cod
             · rename_i hin; simp only [hin, Bool.false_eq_true, if_false]; exact relayAdd _ s0
           · rw [if_neg hacc]; exact linv_pullEnd hl hp (by rw [hst']; simp)
         · simp only [if_true]
-          by_cases hacc : (g.addRtspPull a).2.1 = true
+          by_cases hacc : (g.addRtspPull Code.fixed a).2.1 = true
           · rw [if_pos hacc]
             refine accepted _ _ ?_
             intro s0
